@@ -7,8 +7,16 @@ models of C01/C02/C06: the models take the positional zip of the arguments as a 
     fairness metrics, moment index / gamma; signed weights travel with their rows),
   * a column-wise injective relabelling of the feature values only renames the index entries; aggregates
     and fairness metrics are unchanged when the control labels are kept.
-Container types and pandas index labels do not exist in the model; that half of the property is covered by
-the correspondence check only (`harness/props/c12.py`).
+Container types and pandas index labels: section (5) below.  `Model/Container.lean` models an argument as
+(container kind, index labels, payload), the conversion it passes through, and the label-aligning placement into one
+frame; WHICH conversion each argument of each entry point passes through is lifted from the source on every run
+(`Generated/ContainerSites.lean`, lifter `harness/lifters/containers.py`).  Proved: if every argument passes through a
+label-dropping conversion the result is a function of the payloads only, for ALL index labels and container kinds
+(`containers_irrelevant`), and the rows are paired by position (`positional_pairing`); every lifted site is label
+dropping (`lifted_sites_drop_labels`, a `decide` over the generated finite table — it FAILS, naming the site, when an
+argument reaches a frame raw); a raw Series IS label sensitive (`raw_series_is_label_sensitive`).  What stays
+correspondence-only: that the lifted table covers every path of the real code (the lifter analyses the listed
+functions intra-procedurally), and pandas' reindexing semantics themselves (op `cont.place` vs real pandas).
 
 Helper lemmas: `Lemmas/Perm.lean`, `Lemmas/PermAggregate.lean`, `Lemmas/PermRename.lean`,
 `Lemmas/PermMoments.lean`; definitions: `Model/Perm.lean`.
@@ -17,6 +25,7 @@ import FairModel.Lemmas.Perm
 import FairModel.Lemmas.PermAggregate
 import FairModel.Lemmas.PermRename
 import FairModel.Lemmas.PermMoments
+import FairModel.Lemmas.Container
 
 namespace C12
 open Frame MetricPool Aggregate Perm
@@ -299,5 +308,79 @@ example : Moments.gamma (Moments.eventOf .eo) exMom 1 Moments.defaultUtil [1, 0,
     Moments.gamma (Moments.eventOf .eo) exMom' 1 Moments.defaultUtil [1, 1/2, 1, 0] := by decide +kernel
 example : Moments.gamma (Moments.eventOf .eo) exMom 1 Moments.defaultUtil [1, 0, 1/2, 1] =
     [1/2, -1/2, 1/4, -1/4, -1/2, 1/2, -1/4, 1/4] := by decide +kernel
+
+/-! ### (5) containers and index labels -/
+
+section containers
+open Cont
+open ContainerSites (Conv)
+
+/-- MAIN (containers): if every argument of an entry point passes through a label-dropping conversion, the frame
+    the entry point computes on — hence ANY result `f` of it — depends on the payloads only: container kinds and
+    index labels (arbitrary, per argument) are irrelevant. -/
+theorem containers_irrelevant {β : Type} (n : Nat) (convs : List Conv) (f : List (List (Option Rat)) → β)
+    (args args' : List Arg)
+    (hpay : List.Forall₂ (fun a a' => a.payload = a'.payload) args args')
+    (h : ∀ p ∈ convs.zip args, dropsLabels p.1 p.2 = true)
+    (h' : ∀ p ∈ convs.zip args', dropsLabels p.1 p.2 = true) :
+    run n convs f args = run n convs f args' := by
+  unfold run
+  rw [placeAll_congr n convs args args' hpay h h']
+
+/-- … and the rows are paired BY POSITION: row `i` of the frame holds entry `i` of every payload. -/
+theorem positional_pairing {β : Type} (n : Nat) (convs : List Conv) (f : List (List (Option Rat)) → β)
+    (args : List Arg) (hl : convs.length = args.length)
+    (h : ∀ p ∈ convs.zip args, dropsLabels p.1 p.2 = true)
+    (hn : ∀ a ∈ args, a.payload.length = n) :
+    run n convs f args = .ok (f (args.map (fun a => a.payload.map some))) := by
+  unfold run
+  rw [placeAll_positional n convs args hl h hn]; rfl
+
+/-- every conversion class except `raw` (and `kind` outside its `isinstance` guard) drops the labels of every
+    argument whatsoever -/
+theorem conv_drops_labels (c : Conv) (a : Arg) (hc : c ≠ .raw) (hk : c = .kind → a.kind.labelled = false) :
+    dropsLabels c a = true := by
+  cases c <;> simp_all [dropsLabels]
+
+/-- TIE: every site lifted from the source passes its argument through a label-dropping conversion (finite table
+    regenerated from the source on every run; a `raw` site makes this fail). -/
+theorem lifted_sites_drop_labels : ∀ s ∈ ContainerSites.sites, s.conv ≠ Conv.raw := by decide
+
+/-- the table is not empty and covers the anchored entry points -/
+theorem lifted_sites_cover :
+    ∀ e ∈ ["MetricFrame.__init__", "MetricFrame.sample_params", "_validate_and_reformat_input",
+           "ThresholdOptimizer._reformat_data_into_dict", "DemographicParity.load_data", "EqualizedOdds.load_data",
+           "ErrorRate.load_data", "BoundedGroupLoss.load_data", "InterpolatedThresholder._pmf_predict",
+           "UtilityParity.gamma", "ErrorRate.gamma", "BoundedGroupLoss.gamma"],
+      ∃ s ∈ ContainerSites.sites, s.entry = e := by decide
+
+/-- `_validate_and_reformat_input` returns a fresh Series: RangeIndex, same payload — whatever came in -/
+theorem validate_fresh (a : Arg) :
+    (validate a).labels = rangeIndex a.payload.length ∧ (validate a).payload = a.payload ∧
+    (validate a).kind = .series := ⟨rfl, rfl, rfl⟩
+
+/-- aligning a fresh Series by label is pairing by position (why `Moment.load_data` may put the outputs of
+    `_validate_and_reformat_input` into one frame) -/
+theorem fresh_align_is_positional (vals : List Rat) :
+    place vals.length (.labelled (rangeIndex vals.length) vals) = .ok (vals.map some) :=
+  place_fresh vals
+
+/-- The hypothesis of `containers_irrelevant` is NECESSARY: a raw Series reaching the frame is paired by label —
+    same payload, shuffled labels, different frame; labels outside `0..n-1` give NaN; repeated labels raise. -/
+theorem raw_series_is_label_sensitive :
+    placeAll 2 [.raw] [⟨.series, [0, 1], [10, 20]⟩] = .ok [[some 10, some 20]] ∧
+    placeAll 2 [.raw] [⟨.series, [1, 0], [10, 20]⟩] = .ok [[some 20, some 10]] ∧
+    placeAll 2 [.raw] [⟨.series, [1, 2], [10, 20]⟩] = .ok [[none, some 10]] ∧
+    placeAll 2 [.raw] [⟨.series, [0, 0], [10, 20]⟩] = .error .dupLabels ∧
+    placeAll 2 [.raw] [⟨.list, [1, 0], [10, 20]⟩] = .ok [[some 10, some 20]] := by decide +kernel
+
+/-! non-vacuity: three arguments with different kinds and labels, all through label-dropping conversions -/
+example : placeAll 3 [.asarray, .listOf, .values]
+    [⟨.series, [2, 0, 1], [1, 0, 1]⟩, ⟨.frame, [7, 7, 7], [5, 6, 7]⟩, ⟨.ndarray, [], [1/2, 1/4, 1/8]⟩] =
+    .ok [[some 1, some 0, some 1], [some 5, some 6, some 7], [some (1/2), some (1/4), some (1/8)]] := by
+  decide +kernel
+example : dropsLabels .kind ⟨.list, [], [1]⟩ = true ∧ dropsLabels .kind ⟨.series, [3], [1]⟩ = false := by decide
+
+end containers
 
 end C12
